@@ -400,14 +400,14 @@ pub fn run(ctx: &mut Ctx) -> Vec<Violation> {
     out.extend(v);
 
     // random leaves: completeness + binding at a generated position
-    out.extend(run_prop(ctx, "random-tree", t.pick(3_000, 60_000), 400, tree_case(), |ctx, c| {
+    out.extend(run_prop(ctx, "random-tree", t.pick(20_000, 200_000), 400, tree_case(), |ctx, c| {
         ctx.sample("random-tree", 2, &c.leaves.iter().take(4).collect::<Vec<_>>());
         completeness(ctx, c.ietf, &c.leaves, "rand")?;
         let i = idx(c.pick, c.leaves.len());
         binding(ctx, c.ietf, &c.leaves, i, c.bit, "rand")
     }));
     // random histories on one reused tree
-    out.extend(run_prop(ctx, "history", t.pick(1_500, 30_000), 400, history_case(), |ctx, c| {
+    out.extend(run_prop(ctx, "history", t.pick(10_000, 100_000), 400, history_case(), |ctx, c| {
         ctx.sample("history", 2, &c.batches.iter().map(|b| b.len()).collect::<Vec<_>>());
         reuse(ctx, c.ietf, &c.batches, "hist")
     }));
